@@ -325,6 +325,11 @@ Proof.
   - destruct (s_term (c_sess c s)); inv_some; repeat split; simpl; auto.
   - destruct (negb (s_term (c_sess c s)) || s_done (c_sess c s) || negb (s_inflight (c_sess c s) =? 0)); inv_some;
       repeat split; simpl; auto.
+  - (* HubUnregFail *)
+    destruct (c_hunreg c) as [|[t|r] rest]; try discriminate; simpl in Hs.
+    destruct (c_table c (r_topic r)) as [i|].
+    + destruct (is_init (i_phase (c_inst c i))); [discriminate|]. inv_some; repeat split; simpl; auto.
+    + destruct (c_store c (r_topic r)); [|discriminate]. inv_some; repeat split; simpl; auto.
 Qed.
 
 Ltac splitifs :=
@@ -480,6 +485,11 @@ Proof.
     intros s0. specialize (Hb s0). unfold pending in *. simpl.
     rewrite cntp_app. rewrite cntp_all_internal by reflexivity.
     unfold on_sess, upd. simpl. destruct (Nat.eqb_spec s0 s); subst; simpl; lia.
+  - (* HubUnregFail *)
+    destruct (c_hunreg c) as [|[t|r] rest]; try discriminate; simpl in Hs.
+    destruct (c_table c (r_topic r)) as [i|].
+    + destruct (is_init (i_phase (c_inst c i))); [discriminate|]. inv_some; fin Hb.
+    + destruct (c_store c (r_topic r)); [|discriminate]. inv_some; fin Hb.
 Qed.
 
 Lemma inv_bal_init : forall st ow us ch, inv_bal (init_config st ow us ch).
@@ -693,6 +703,11 @@ Proof.
   - destruct (s_detachq (c_sess c s)); inv_some; simpl; auto.
   - destruct (s_term (c_sess c s)); inv_some; simpl; auto.
   - destruct (negb (s_term (c_sess c s)) || s_done (c_sess c s) || negb (s_inflight (c_sess c s) =? 0)); inv_some; simpl; auto.
+  - (* HubUnregFail *)
+    destruct (c_hunreg c) as [|[t|r] rest]; try discriminate; simpl in Hs.
+    destruct (c_table c (r_topic r)) as [i|].
+    + destruct (is_init (i_phase (c_inst c i))); [discriminate|]. inv_some; simpl; auto.
+    + destruct (c_store c (r_topic r)); [|discriminate]. inv_some; simpl; auto.
 Qed.
 
 Lemma init_has_goroutine_reach : forall st ow us c, reach st ow us c -> init_has_goroutine c.
